@@ -126,6 +126,9 @@ func ruleFreshOnlyIfMissing(r *core.Run, id string, pkgPrefixes ...string) {
 						}
 						continue
 					}
+					if _, isCall := st.Val.(*ssa.Call); isCall && res.Of(st.Val).Op == "mk" {
+						lits = append(lits, st) // a constructor helper that builds the record from scratch
+					}
 					if _, isZero := st.Val.(*ssa.Const); isZero {
 						lits = append(lits, st) // x = T{...} on an addressable variable: zeroed, then filled field by field
 					}
